@@ -626,7 +626,7 @@ fn oracle_c07(rep: &mut Report, c: &Case, spec: &openapiv3::OpenAPI, h: &hir::Hi
         let Some(s) = comps.get(n) else { continue };
         if is_prim(doc, s, 0) { continue; } // `$ref` to a primitive is the primitive, no model
         if h.schemas.contains_key(n) { continue; }
-        let nullable_alias = s.get("nullable") == Some(&json!(true)) && s.get("allOf").and_then(|a| a.as_array()).map(|a| a.len() == 1).unwrap_or(false);
+        let nullable_alias = s.get("nullable") == Some(&json!(true)) && s.get("allOf").and_then(|a| a.as_array()).map(|a| a.iter().map(|m| if m.get("$ref").is_some() { 1 } else { m.get("properties").and_then(|p| p.as_object()).map(|p| p.len()).unwrap_or(0) }).sum::<usize>() == 1).unwrap_or(false);
         if nullable_alias && !from_ops.contains(n) && !from_schemas.contains(n) { rep.bump("c07_inlined_nullable_alias"); continue; }
         // reachable only through a primitive-resolved position? e.g. referenced only from a component that is itself unreachable
         let arr_inline = s["type"] == "array" && s["items"].get("$ref").is_none() && s["items"].is_object();
